@@ -538,6 +538,16 @@ def p_map_blocks(w, E, p, how="info"):
     return Prog(out.expr, ref, p.dsk)
 
 
+def p_view(w, E, p, dtype, order="C"):
+    """x.view(dtype, order): the bytes reinterpreted under another item size (shapes are modelled, content is an
+    uninterpreted function of the elements it is made of)"""
+    coll = w.fn(NC, "new_collection")(p.node)
+    out = coll.view(dtype, order=order)
+    X = p.ref
+    ref = X.view(np.dtype(dtype)) if order == "C" else X.T.view(np.dtype(dtype)).T
+    return Prog(out.expr, ref, p.dsk)
+
+
 def p_take(w, E, p, axis, index):
     """x[..., [i, j, ...], ...] through Array.__getitem__ (normalize_index -> slice_wrap_lists -> take -> Shuffle);
     the index values are concrete, the axis is long enough to hold them"""
@@ -661,6 +671,8 @@ def programs(tier):
     reg("map_blocks(f_info,x2+y3(unaligned))", lambda w, E: p_map_blocks(w, E, _add_unaligned(w, E, (2,), (3,))), 6)
     reg("map_blocks(f_info,x3[a:b])", lambda w, E: p_map_blocks(w, E, p_slice(w, source(w, E, "x", (3,)), raw_index(E, (F,)))), 5)
     reg("map_blocks(f_info,sliding_window_view(x3,W,0).sum(-1))", lambda w, E: p_map_blocks(w, E, p_sliding_sum(w, E, source(w, E, "x", (3,)), 0)), 14)
+    reg("x2x2.view('f4')", lambda w, E: p_view(w, E, source(w, E, "x", (2, 2)), "f4"), 2)
+    reg("x2x2.view('f4',order='F')", lambda w, E: p_view(w, E, source(w, E, "x", (2, 2)), "f4", "F"), 2)
     # point-wise indexing with two integer arrays (entries enumerated by forking; sizes of the other axes symbolic)
     reg("x(2,1)x2.vindex[[p,q],:]... two arrays: x.vindex[[p0,p1],:,[q0,2]]", lambda w, E: _vindex_prog(w, E, ((2, 1), "s", (1, 2)), 2, {(2, 1): 2}), 9)
     reg("x.vindex[:,[p0,1],:,[q0,q1]] (4-d, separated axes)", lambda w, E: _vindex_prog(w, E, ("s", (1, 1), "s", (2,)), 2, {(1, 1): 1}), 9)
